@@ -137,6 +137,9 @@ type DataSpec struct {
 type WriterSpec struct {
 	FailAt int `json:"fail_at"`
 	Form   int `json:"form,omitempty"`
+	// ErrKind selects the error value the writer reports: 0 a plain error, 1 io.ErrClosedPipe, 2 syscall.EPIPE,
+	// 3 io.ErrClosedPipe wrapped with %w, 4 io.ErrShortWrite, 5 io.EOF, 6 context.Canceled, 7 os.ErrDeadlineExceeded.
+	ErrKind int `json:"err_kind,omitempty"`
 }
 
 // CtxSpec: CancelAtPoll == 0 never; k > 0 => the k-th Err() poll and every later one report cancellation;
